@@ -84,6 +84,46 @@ package meta
 //@   pureeffect
 //@   requires [type_counters_follow_the_index_not_the_marks] a1 == payloadCounter
 
+// The tombstone branch of put marks the target and its children; its share of the counter
+// diff must agree with what the index will hold afterwards (the recount's definitions):
+// the garbage counter counts garbage keys, so every key newly created here counts once,
+// whether or not the member's header is stored; the container's payload estimate loses the
+// payload of exactly the members that are stored physical objects and become marked now
+// (not of already marked ones - that was taken off before).
+//@ ghost pred memberStatus() uint8
+//@ ghost pred memberHeaderStored() bool
+//@ ghost pred memberPhysical() bool
+//@ ghost pred memberPayloadSize() uint64
+//@ callrule c02_tombstone_collaborators in handleObjectWithAssociation
+//@   property C02
+//@   callee (*bbolt.Cursor).*, (*bbolt.Bucket).*, metabase.fetchTypeForID, metabase.collectChildren, metabase.objectLocked, metabase.objectStatus, metabase.mkGarbageKey, (object.Object).*, (*object.Object).*, (*id.Address).*, (id.ID).*
+//@   pureeffect
+//@ callrule c02_member_status in handleObjectWithAssociation
+//@   property C02
+//@   callee metabase.inGarbage
+//@   pureeffect
+//@   defines result == memberStatus()
+//@ callrule c02_member_header in handleObjectWithAssociation
+//@   property C02
+//@   callee metabase.get
+//@   pureeffect
+//@   defines (err == nil) == memberHeaderStored()
+//@ callrule c02_member_physical in handleObjectWithAssociation
+//@   property C02
+//@   callee metabase.getObjAttribute
+//@   pureeffect
+//@   defines (string(result) == binPropMarker) == memberPhysical()
+//@ callrule c02_member_size in handleObjectWithAssociation
+//@   property C02
+//@   callee (object.Object).PayloadSize, (*object.Object).PayloadSize
+//@   pureeffect
+//@   defines result == memberPayloadSize()
+//@ func handleObjectWithAssociation
+//@   property C02
+//@   loop 1 iteration [every_new_garbage_key_is_counted_once] inhumed == old(inhumed) + ite(memberStatus() == statusAvailable, 1, 0)
+//@   loop 1 iteration [payload_taken_off_only_for_members_marked_now] diff.Payload != old(diff.Payload) ==> memberHeaderStored() && memberStatus() == statusAvailable
+//@   loop 1 iteration [payload_of_every_stored_physical_member_marked_now_is_taken_off] memberHeaderStored() && memberStatus() == statusAvailable && memberPhysical() ==> diff.Payload == old(diff.Payload) - int64(memberPayloadSize())
+
 //@ ghost pred metaDiffGC() int
 //@ ghost pred metaDiffPhy() int
 //@ ghost pred metaDiffPayload() int64
